@@ -13,11 +13,12 @@ CONSTANTS
   Faults = TRUE
   Full = FALSE
   DetOnly = FALSE
+  Wrong = "none"
 INIT Init
 NEXT Next
 VIEW View
 SYMMETRY Sym
 CONSTRAINT Bounded
 INVARIANTS TypeOK EncodingConsistent KeysWellPlaced PkIsPeek PeekNeverWrong PeekNeverAfterDeadline PeekBoundedStaleness
-PROPERTIES FailedSetInvisible FailedReadIsLocal FailedWriteKeepsBackend NoErrorWithoutFault NeverWrong NeverAfterDelete NeverAfterDeadline NeverCorrupt ReadIsPeek NoAlias AddSemantics ReadYourWrites DeleteRemoves
+PROPERTIES FailedSetInvisible FailedReadIsLocal FailedWriteKeepsBackend NoErrorWithoutFault NeverWrong NeverAfterDelete NeverAfterDeadline NeverCorrupt ReadIsPeek NoAlias AddSemantics ReadYourWrites DeleteRemoves StopIsInert
 CHECK_DEADLOCK FALSE
